@@ -31,6 +31,8 @@ type NetRules struct {
 	BaseLatencyNs                    int64
 	JitterNs                         int64
 	HoldMaxNs                        int64
+	// Partitions are virtual-time windows [from,to) in which every datagram is dropped.
+	Partitions [][2]int64
 	// Mask[ep] lists explicit actions for the first datagrams emitted by ep
 	// (enumerated fault masks); entries beyond it fall back to the rates.
 	Mask map[string][]int
@@ -340,6 +342,14 @@ func (c *SimPacketConn) EmitCount() int {
 
 func (n *SimNet) decide(c *SimPacketConn, idx int, size int) Dec {
 	r := n.Rules
+	now := int64(n.S.Now())
+	for _, w := range r.Partitions {
+		if now >= w[0] && now < w[1] {
+			n.S.Fault("partition-drop")
+
+			return Dec{A: ActDrop}
+		}
+	}
 	if m, ok := r.Mask[c.name]; ok && idx < len(m) {
 		d := Dec{A: int64(m[idx] & 0xff)}
 		if d.A == ActHold || d.A == ActDup {
@@ -425,7 +435,9 @@ func (n *SimNet) send(c *SimPacketConn, idx int, data []byte, to net.Addr) {
 	defer n.releaseHeld(c.name, lat)
 	switch d.A {
 	case ActDrop:
-		n.S.Fault("drop")
+		if len(n.Rules.Partitions) == 0 {
+			n.S.Fault("drop")
+		}
 
 		return
 	case ActHoldN:
